@@ -520,7 +520,45 @@ fn main() {
                 // `&`, the regime where an implementation has to batch / compact its intermediate results.
                 // Operands are drawn until the product count lies in a window that keeps one event ~1 s.
                 let reps = if thorough { 120 } else { 4 };
-                for _ in 0..reps {
+                for rep in 0..reps {
+                    if rep % 4 == 3 {
+                        // products that are all non-zero, pairwise disjoint and therefore all essential: a = the
+                        // minterms over a set A of variables, listed k times (a redundant list is a legitimate
+                        // argument of from_cubes), b = the minterms over a disjoint set B; the same product cube
+                        // then comes back k times, |a|/k rows apart, and none of them may get lost
+                        let na = rng.range(5, 7);
+                        let nb = rng.range(6, 7);
+                        let nn = na + nb;
+                        let k = rng.range(2, 3);
+                        let mut vars: Vec<usize> = (0..nn).collect();
+                        rng.shuffle(&mut vars);
+                        let minterms = |vs: &[usize]| -> Vec<CubeM> {
+                            (0..1u32 << vs.len())
+                                .map(|m| {
+                                    let mut cb = CubeM::new(0, 0);
+                                    for (j, v) in vs.iter().enumerate() {
+                                        if (m >> j) & 1 == 1 {
+                                            cb.pos |= 1 << v;
+                                        } else {
+                                            cb.neg |= 1 << v;
+                                        }
+                                    }
+                                    cb
+                                })
+                                .collect()
+                        };
+                        let one = minterms(&vars[..na]);
+                        let mut a: Vec<CubeM> = Vec::new();
+                        for _ in 0..k {
+                            a.extend(one.iter().copied());
+                        }
+                        let b = minterms(&vars[na..]);
+                        ctx.bump("big-product-events", 1);
+                        ctx.bump("big-product-cube-products", (a.len() * b.len()) as u64);
+                        let (l, r) = if rng.bool() { (a, b) } else { (b, a) };
+                        run(ctx, "expr|big-disjoint", nn, &[l, r], &[Tok::Leaf(0), Tok::Leaf(1), Tok::And]);
+                        continue;
+                    }
                     let nn = rng.range(9, 10);
                     let mut tries = 0;
                     loop {
@@ -546,7 +584,10 @@ fn main() {
                                 .collect()
                         };
                         let a = mk(&mut rng);
-                        let b = mk(&mut rng);
+                        // every other event squares one operand: (!a) & (!a) — every cube product then occurs
+                        // twice, (i, j) and (j, i), far apart in the enumeration of the products
+                        let square = rep % 2 == 1;
+                        let b = if square { a.clone() } else { mk(&mut rng) };
                         let sizes = guard(|| {
                             let sa = !&Sop::from_cubes(nn, a.iter().map(|c| c.real()).collect());
                             let sb = !&Sop::from_cubes(nn, b.iter().map(|c| c.real()).collect());
@@ -559,7 +600,11 @@ fn main() {
                         if (17_000..=70_000).contains(&prod) || tries >= 60 {
                             ctx.bump("big-product-events", 1);
                             ctx.bump("big-product-cube-products", prod as u64);
-                            run(ctx, "expr|big-product", nn, &[a, b], &[Tok::Leaf(0), Tok::Not, Tok::Leaf(1), Tok::Not, Tok::And]);
+                            if square {
+                                run(ctx, "expr|big-square", nn, &[a], &[Tok::Leaf(0), Tok::Not, Tok::Leaf(0), Tok::Not, Tok::And]);
+                            } else {
+                                run(ctx, "expr|big-product", nn, &[a, b], &[Tok::Leaf(0), Tok::Not, Tok::Leaf(1), Tok::Not, Tok::And]);
+                            }
                             break;
                         }
                     }
@@ -612,5 +657,7 @@ fn main() {
         required.push(format!("expr|ops={}", ops));
     }
     required.push("expr|big-product".into());
+    required.push("expr|big-square".into());
+    required.push("expr|big-disjoint".into());
     cli.finish(&ctx, &required, RULE);
 }
